@@ -22,6 +22,7 @@ RULE = (
     "Out-of-domain (excluded, counted): reg_eps + lambda_min/s^2 < 50 m eps(dtype) (documented purpose of reg_eps), "
     "s within 5% of norm_eps. Non-trivial = w* has both an active and an inactive constraint, or s < norm_eps, or a "
     "non-default u. Distinct = distinct (J, u, eps parameters, dtype, aggregator)."
+    " Preference kinds: none, 1/m, random, with zeros, integer tensor, all entries equal to c in {1, 2, 0.25, 10, 0}."
 )
 ASSUMPTIONS = [
     "reference QP solved by active-set enumeration in float64; tolerance K m (eps_dtype + eps64) / sqrt(reg_eff) on "
